@@ -90,6 +90,12 @@ def build(rng, kind, i):
         line = rng.choice([b"GET HTTP/1.1", b"POST HTTP/1.0", b"/x HTTP/1.1", b"GET  HTTP/1.1", b" HTTP/1.1", b"GET ", b" ", b"HTTP/1.1", b"GET /x",
                            b"GET\tHTTP/1.1", b"G HTTP/0.9", b"GET HTTP/2.0", b"  ", b"GET /a b HTTP/1.1", b"GET /a  HTTP/1.1"])
         s = line + b"\r\nHost: h\r\n\r\n" + follower
+    elif kind == "te-params":
+        te = rng.choice(["chunked;", "gzip;;q=1", "trailers, chunked;a", "identity;;", ";", "chunked; ;q=0.5", "chunked;q", "chunked;Q=1", ";q=1", "a;b;c;;d"])
+        s = ("GET /%s HTTP/1.1\r\nTE: %s\r\n\r\n" % (tag, te)).encode() + follower
+    elif kind == "abs-targets":
+        tg = rng.choice(["http://example.org:8001", "http://example.org", "https://", "http:/", "HTTP://h", "http://h/", "http://h?x", "//", "http://"])
+        s = ("%s %s HTTP/1.1\r\nHost: h\r\n\r\n" % (rng.choice(["GET", "OPTIONS"]), tg)).encode() + follower
     elif kind == "te-nan":
         n = rng.choice([2, 5, 21, 44, 60])
         s = ("GET /%s HTTP/1.1\r\nTE: %s\r\n\r\n" % (tag, te_list(rng, n))).encode()
@@ -116,7 +122,7 @@ def build(rng, kind, i):
 
 
 KINDS = ["huge-cl", "huge-cl", "huge-chunk", "many-headers", "long-line", "control", "te-nan", "te-nan", "truncated", "random",
-         "head-identity", "empty-values", "short-lines"]
+         "head-identity", "empty-values", "short-lines", "te-params", "abs-targets"]
 RARE = ["many-505", "many-requests"]     # long pipelines: a few per run (the model's wire append is quadratic)
 
 
